@@ -257,7 +257,7 @@ pub fn run_program<B: BodyBuf>(p: &Program, rep: &mut Report) {
     let sp = sched.spawner.clone();
     sched.spawn("s:conn", apps::server_main::<B>(net.clone(), sopts, probe.clone(), sp.clone()));
     sched.spawn("c:conn", apps::client_main::<B>(net.clone(), copts, probe.clone(), sp));
-    let end = sched.run(30_000_000);
+    let end = sched.run(6_000_000);
     if end == RunEnd::StepCap {
         rep.inconclusive("step cap reached");
         return;
